@@ -10,8 +10,7 @@ CONSTANTS
   KeySet = {}
   ValSet = {}
   HashVals = {}
-  IntKeys = {}
-  NegKeys = {}
+  RKeys = {}
   ShardCounts = {}
 INVARIANTS Total Accepted
 VIEW AView
